@@ -804,8 +804,8 @@ def run_socket(job: dict[str, Any]) -> dict[str, Any]:
                         chk.violation(f"wait_out_of_range:{bad}:socket", f"wait {d!r}", wit)
                 if sends > 1:
                     chk.hit("C_resend_observed")
-                    if first in ("s503",):
-                        ok = 503 in cfgd["retryable"]
+                    if first in ("s503", "s500"):
+                        ok = int(first[1:]) in cfgd["retryable"]
                     elif first in ("close_fin_0", "close_rst_0"):
                         ok = cfgd["conn"]
                     else:
